@@ -279,12 +279,13 @@ def mc_configs(sims, thorough=False):
         for b in base:
             c = dict(b)
             c['sim'] = sim
-            c['tmin'] = 0
+            c['tmin'] = [0, -5.0, 3.5][len(out) % 3]
             g = c['gamma'] if c['gamma'] > 0 else 1.0
             if 'tmax' in c:
-                c['times'] = [0.4 / g, 1.2 / g]
+                c['tmax'] = c['tmin'] + c['tmax']
+                c['times'] = [c['tmin'] + 0.4 / g, c['tmin'] + 1.2 / g]
             else:
-                c['times'] = [0.4 / g, 1.2 / g, 'final']
+                c['times'] = [c['tmin'] + 0.4 / g, c['tmin'] + 1.2 / g, 'final']
                 c['tmax'] = float('inf')
             out.append(c)
     return out
